@@ -21,6 +21,7 @@ fn registry() -> Vec<(&'static str, RunFn, ReplayFn, u64)> {
         ("C10", props::c10::run, props::c10::replay, 10800),
         ("C11", props::c11::run, props::c11::replay, 7200),
         ("C12", props::c12::run, props::c12::replay, 7200),
+        ("C13", props::c13::run, props::c13::replay, 10800),
     ]
 }
 
@@ -41,6 +42,25 @@ fn main() {
         .unwrap_or_else(|| std::thread::available_parallelism().map(|n| n.get()).unwrap_or(8).min(16));
     match args[1].as_str() {
         "c07-child" => props::c07::child_main(&args[2..]),
+        "gen-safe-primes" => {
+            // zkverif gen-safe-primes <bits of p'> <count> <threads>  -> JSON lines {"bits":..,"p":..}
+            let bits: u32 = args[2].parse().unwrap();
+            let count: usize = args[3].parse().unwrap();
+            let threads: usize = args.get(4).and_then(|s| s.parse().ok()).unwrap_or(8);
+            let found = std::sync::atomic::AtomicUsize::new(0);
+            std::thread::scope(|s| {
+                for _ in 0..threads {
+                    s.spawn(|| {
+                        while found.load(std::sync::atomic::Ordering::SeqCst) < count {
+                            let (p, _) = zkverif::clmath::find_safe_prime(bits);
+                            if found.fetch_add(1, std::sync::atomic::Ordering::SeqCst) < count {
+                                println!("{{\"bits\": {}, \"p\": \"{}\"}}", bits, p);
+                            }
+                        }
+                    });
+                }
+            });
+        }
         "refcheck" => match refcheck::validate_reference() {
             Ok(n) => println!("reference model reproduces all fixtures ({} items)", n),
             Err(e) => {
